@@ -46,6 +46,8 @@ type Contract struct {
 	PanicsIf    []*Clause
 	Captures    []*Clause
 	Unfolds     []*Clause
+	Names       []*Clause // definitional: result_i == f(self, args) for an otherwise unconstrained spec function f
+	SelfFacts   []*Clause // facts about spec functions applied to this function value (self)
 	Modifies    []ast.Expr
 	HasModifies bool
 	FreshResult bool
@@ -380,7 +382,7 @@ func (C *Contracts) loadContractFile(path string, pkgPath string, isGo bool) {
 				cur.Trusted = true
 				C.Externs[name] = cur
 			}
-		case "requires", "ensures", "invariant", "panics_if", "captures", "unfold":
+		case "requires", "ensures", "invariant", "panics_if", "captures", "unfold", "names", "selffact":
 			cl, err := parseClause(kw, rest, path, ln)
 			if err != nil {
 				errf("%v", err)
@@ -409,6 +411,10 @@ func (C *Contracts) loadContractFile(path string, pkgPath string, isGo bool) {
 				cur.Captures = append(cur.Captures, cl)
 			case "unfold":
 				cur.Unfolds = append(cur.Unfolds, cl)
+			case "names":
+				cur.Names = append(cur.Names, cl)
+			case "selffact":
+				cur.SelfFacts = append(cur.SelfFacts, cl)
 			}
 		case "modifies":
 			var items []ast.Expr
